@@ -3,7 +3,7 @@ from __future__ import annotations
 
 from ..report import Report
 from ..specs.kernels import CATALOGUE, Straddle, Full, IntRing, Zones
-from ..store import interior_point, roots_of
+from ..store import interior_point, roots_of, is_abstract
 from ..specs.ops import at, zero
 from ..summaries import expr_at_cells
 from .common import entry_summary, short
@@ -64,6 +64,8 @@ def check_entry(S, e, rep, pid="C13", rules=("a", "b", "c")):
             inner = fb.shrink(1)
             ringbad = None
             for box, x in cells:
+                if is_abstract(x):
+                    continue        # boundary band of an iterated stencil kept as a dependence set: not decided here (C19.d, C13.c)
                 if inner.intersect(box).is_empty() and not pw_equal(x, at(name, zero(fb.rank))):
                     ringbad = "ring cell %r holds %s, documented: unchanged" % (box, short(x, 200))
                     break
